@@ -215,7 +215,23 @@ def run_case(case):
     class MyDist(st.DistributedConfig):
         pass
 
+    # subclasses of the concrete distributed configs are unsupported types too (the constructor dispatches on the exact type;
+    # the refusal happens before any distributor / process group is touched)
+    dist_trials = {}
+    for cname in ("DDPShampooConfig", "FSDPShampooConfig", "HSDPShampooConfig", "FullyShardShampooConfig"):
+        cls = getattr(st, cname, None)
+        if cls is None:
+            continue
+        sub = type("My" + cname, (cls,), {})
+        try:
+            obj_ = sub() if cname in ("DDPShampooConfig", "FullyShardShampooConfig") else sub(param_to_metadata={}) if cname == "FSDPShampooConfig" else None
+        except Exception:  # noqa  (a config that cannot be built without a mesh is simply not tried)
+            obj_ = None
+        if obj_ is not None:
+            dist_trials["distributed_subclass_of_" + cname] = dict(distributed_config=obj_)
+
     trials = {
+        **dist_trials,
         "grafting_subclass_of_base": dict(grafting_config=MyGrafting()),
         "grafting_subclass_of_adam": dict(grafting_config=MyGrafting2()),
         "preconditioner_subclass_of_base": dict(preconditioner_config=MyPrecond(amortized_computation_config=DefaultEigenConfig)),
